@@ -436,8 +436,13 @@ func c04R6(c *Ctx, id string) {
 			if call, ok := in.(*ssa.Call); ok && (calleeOf(call).Builtin == "copy" || calleeOf(call).Name() == "common.(*Inode).SetKey" || calleeOf(call).Name() == "common.(*Inode).SetValue") {
 				copies++
 			}
+			if st, ok := in.(*ssa.Store); ok {
+				if fa, isFA := st.Addr.(*ssa.FieldAddr); isFA && fieldOfAddr(fa).Name() == "key" {
+					copies++ // the node key is replaced (C04.R11 decides by what)
+				}
+			}
 		})
-		c.check(id+":(*node).dereference:recursion", nd, nd.Pos(), "node.dereference copies its key, every inode key and value to the heap and recurses into its children", okN && copies >= 4, fmt.Sprintf("recursion=%v copies/setters=%d", okN, copies))
+		c.check(id+":(*node).dereference:recursion", nd, nd.Pos(), "node.dereference copies its key, every inode key and value to the heap and recurses into its children", okN && copies >= 3, fmt.Sprintf("recursion=%v copies/setters=%d", okN, copies))
 	})
 }
 
@@ -569,62 +574,129 @@ func c04R11(c *Ctx, id string) {
 			}
 			return ""
 		}
-		seen := map[string]bool{}
-		eachInstr(fn, func(in ssa.Instruction) {
-			mk, ok := in.(*ssa.MakeSlice)
-			if !ok {
-				return
-			}
-			// sized by len(source)
-			srcKind := ""
-			if call, isC := stripConv(mk.Len).(*ssa.Call); isC && calleeOf(call).Name() == "builtin:len" {
-				srcKind = kindOf(call.Call.Args[0])
-			}
-			key := fmt.Sprintf("%s:(*node).dereference:%s", id, srcKind)
-			if srcKind == "" {
-				c.check(id+":(*node).dereference:make@unknown", fn, mk.Pos(), "every buffer made in dereference is sized by the key/value it replaces", false, "a make whose size is not len(n.key / inode.Key() / inode.Value())")
-				return
-			}
-			seen[srcKind] = true
-			bad := ""
-			var cp *ssa.Call
-			for _, r := range *mk.Referrers() {
-				if call, isC := r.(*ssa.Call); isC && calleeOf(call).Name() == "builtin:copy" && call.Call.Args[0] == ssa.Value(mk) {
-					cp = call
+		// freshCopyOf: v is a heap copy of a byte slice; returns the slice it copies ("" if v is not recognisably a
+		// fresh copy): make+copy in place, a module helper whose body is make(len(p)) + copy(_, p) + return, or
+		// bytes.Clone / slices.Clone / append([]byte(nil), src...)
+		var freshCopyOf func(v ssa.Value, before ssa.Instruction, depth int) (ssa.Value, string)
+		freshCopyOf = func(v ssa.Value, before ssa.Instruction, depth int) (ssa.Value, string) {
+			switch x := v.(type) {
+			case *ssa.MakeSlice:
+				var sized ssa.Value
+				if call, isC := stripConv(x.Len).(*ssa.Call); isC && calleeOf(call).Name() == "builtin:len" {
+					sized = call.Call.Args[0]
 				}
-			}
-			switch {
-			case cp == nil:
-				bad = "the new buffer is never filled: copy(dst, src) is missing, the slot would be replaced by zero bytes"
-			case kindOf(cp.Call.Args[1]) != srcKind:
-				bad = "copy fills the buffer from a different source than the one that sized it"
-			default:
-				// installed into the same slot, after the copy
-				installed := false
-				for _, r := range *mk.Referrers() {
-					switch x := r.(type) {
-					case *ssa.Store:
-						if fa, isFA := x.Addr.(*ssa.FieldAddr); isFA && fieldOfAddr(fa).Name() == "key" && srcKind == "node-key" && x.Val == ssa.Value(mk) && dominates(cp, x) {
-							installed = true
-						}
-					case *ssa.Call:
-						n := calleeOf(x).Name()
-						if (strings.HasSuffix(n, "(*Inode).SetKey") && srcKind == "inode-key" || strings.HasSuffix(n, "(*Inode).SetValue") && srcKind == "inode-value") && dominates(cp, x) {
-							installed = true
-						}
+				if sized == nil {
+					return nil, "a make whose size is not len(<the slot's content>)"
+				}
+				var cp *ssa.Call
+				for _, r := range *x.Referrers() {
+					if call, isC := r.(*ssa.Call); isC && calleeOf(call).Name() == "builtin:copy" && call.Call.Args[0] == ssa.Value(x) {
+						cp = call
 					}
 				}
-				if !installed {
-					bad = "the filled buffer is not installed into the slot it was copied from"
+				if cp == nil {
+					return nil, "the new buffer is never filled: copy(dst, src) is missing, the slot would be replaced by zero bytes"
+				}
+				if before != nil && !dominates(cp, before) {
+					return nil, "the buffer is installed before it is filled"
+				}
+				if depth == 0 {
+					// the size source and the copy source must be the same thing (compared by the caller through kindOf)
+					return cp.Call.Args[1], "sized-by:" + fmt.Sprint(sized.Name())
+				}
+				if cp.Call.Args[1] != sized {
+					if pa, ok := cp.Call.Args[1].(*ssa.Parameter); !ok || pa != sized {
+						return nil, "copy fills the buffer from a different source than the one that sized it"
+					}
+				}
+				return cp.Call.Args[1], ""
+			case *ssa.Call:
+				n := calleeOf(x).Name()
+				if (n == "bytes.Clone" || n == "slices.Clone") && len(x.Call.Args) == 1 {
+					return x.Call.Args[0], ""
+				}
+				if calleeOf(x).Builtin == "append" && len(x.Call.Args) == 2 {
+					if isNilConst(stripConv(x.Call.Args[0])) {
+						return x.Call.Args[1], ""
+					}
+				}
+				f := calleeOf(x).Static
+				if f != nil && inModule(f) && depth < 2 && len(f.Params) == 1 && len(x.Call.Args) == 1 && f.Signature.Results().Len() == 1 {
+					// a cloner: every return is a fresh copy of the parameter
+					okAll := len(returnsOf(f)) > 0
+					for _, ret := range returnsOf(f) {
+						src, why := freshCopyOf(ret.Results[0], ret, depth+1)
+						if why != "" || src != ssa.Value(f.Params[0]) {
+							okAll = false
+						}
+					}
+					if okAll {
+						return x.Call.Args[0], ""
+					}
 				}
 			}
-			c.check(key, fn, mk.Pos(), "a heap buffer of the same length is filled by copy() from the slot and then installed into that slot", bad == "", bad)
+			return nil, "not a fresh copy"
+		}
+		type slot struct {
+			kind string
+			at   ssa.Instruction
+			val  ssa.Value
+		}
+		var slots []slot
+		eachInstr(fn, func(in ssa.Instruction) {
+			switch x := in.(type) {
+			case *ssa.Store:
+				if fa, isFA := x.Addr.(*ssa.FieldAddr); isFA && fieldOfAddr(fa).Name() == "key" && fieldOfAddr(fa).Pkg() != nil && fieldOfAddr(fa).Pkg().Path() == rootPkg {
+					slots = append(slots, slot{"node-key", in, x.Val})
+				}
+			case *ssa.Call:
+				n := calleeOf(x).Name()
+				if strings.HasSuffix(n, "(*Inode).SetKey") && len(x.Call.Args) == 2 {
+					slots = append(slots, slot{"inode-key", in, x.Call.Args[1]})
+				}
+				if strings.HasSuffix(n, "(*Inode).SetValue") && len(x.Call.Args) == 2 {
+					slots = append(slots, slot{"inode-value", in, x.Call.Args[1]})
+				}
+			}
 		})
+		seen := map[string]bool{}
+		for _, sl := range slots {
+			seen[sl.kind] = true
+			bad := ""
+			src, why := freshCopyOf(sl.val, sl.at, 0)
+			switch {
+			case src == nil:
+				bad = "the value installed into the slot is " + why
+			case kindOf(src) != sl.kind:
+				bad = "the slot is replaced by a copy of something else (" + kindOf(src) + ")"
+			default:
+				if mk, isMk := sl.val.(*ssa.MakeSlice); isMk {
+					if call, isC := stripConv(mk.Len).(*ssa.Call); isC && kindOf(call.Call.Args[0]) != sl.kind {
+						bad = "copy fills the buffer from a different source than the one that sized it"
+					}
+				}
+			}
+			c.check(fmt.Sprintf("%s:(*node).dereference:%s", id, sl.kind), fn, sl.at.Pos(), "the slot is replaced by a heap copy of its own current content (same length, filled before it is installed)", bad == "", bad)
+		}
 		for _, k := range []string{"node-key", "inode-key", "inode-value"} {
 			if !seen[k] {
 				c.check(id+":(*node).dereference:"+k, fn, fn.Pos(), "dereference replaces "+k, false, "no buffer is made for "+k+": it keeps pointing into the mapping that is about to be unmapped")
 			}
 		}
+		// no other make in dereference (a buffer that is made but not installed hints at a slot that is skipped)
+		eachInstr(fn, func(in ssa.Instruction) {
+			if mk, ok := in.(*ssa.MakeSlice); ok {
+				used := false
+				for _, sl := range slots {
+					if sl.val == ssa.Value(mk) {
+						used = true
+					}
+				}
+				if !used {
+					c.check(id+":(*node).dereference:make@unused", fn, mk.Pos(), "every buffer made in dereference is installed into a slot", false, "a buffer is made but installed nowhere")
+				}
+			}
+		})
 	})
 }
 
